@@ -66,3 +66,107 @@ Example c14_seven_seconds_hour_base :
   let stored := q_new (StF 53 1024 p64 m64 LibStd) U dT one (B754_zero true) (of_lit 53 1024 p64 m64 7 0) in
   time_to_duration 53 1024 p64 m64 LibStd true U dT one nano stored = DurOk 7 0.
 Proof. vm_compute. reflexivity. Qed.
+
+(* ---- accuracy (any binary format, any base-unit set, std or no-std power) ----
+   T = v f / k_second: the time in seconds that the stored value v denotes (f = exact product of base-unit powers);
+   G = k_second / k_nanosecond (the float-rounded 10^9).  An Ok result, counted in nanoseconds, is within
+   one nanosecond plus ulp-sized terms of T: n1 roundings on the way to seconds, n2 + n3 on the sub-second part.
+   Premise: no intermediate over/underflows (Safe: decidable, see SafeB) - for the fractional part only when
+   it is non-zero; the conversions of 1 being safe makes a zero fractional part convert to zero nanoseconds. *)
+From Coq Require Import Reals.
+From UomV Require Import Proofs.Tree Proofs.ErrBound Proofs.SafeB Proofs.DurationAcc.
+Section Acc.
+Variables prec emax : Z.
+Context (Hprec : Prec_gt_0 prec) (Hmax : Prec_lt_emax prec emax).
+Notation fl := (binary_float prec emax).
+Notation one := (fone prec emax Hprec Hmax).
+Open Scope R_scope.
+
+Theorem c14_to_duration_accuracy :
+  forall lib ac (U : list fl) dT (ksec knano v : fl) s n,
+  Forall (fun u => is_nan u = false) U ->
+  time_to_duration prec emax Hprec Hmax lib ac U dT ksec knano v = DurOk s n ->
+  let t1 := from_base_tree prec emax Hprec Hmax lib U dT ksec v in
+  let frac := frem prec emax Hprec Hmax (evalF prec emax Hprec Hmax t1) one in
+  let t2 := to_base_tree prec emax Hprec Hmax lib U dT ksec frac in
+  let t3 := from_base_tree prec emax Hprec Hmax lib U dT knano (evalF prec emax Hprec Hmax t2) in
+  let T := B2R v * factor_R prec emax lib U dT / B2R ksec in
+  let G := B2R ksec / B2R knano in
+  Safe prec emax Hprec Hmax t1 ->
+  Safe prec emax Hprec Hmax (to_base_tree prec emax Hprec Hmax lib U dT ksec one) ->
+  Safe prec emax Hprec Hmax (from_base_tree prec emax Hprec Hmax lib U dT knano one) ->
+  (B2R frac <> 0 -> Safe prec emax Hprec Hmax t2 /\ Safe prec emax Hprec Hmax t3) ->
+  0 < B2R ksec -> 0 < B2R knano ->
+  Rabs (IZR (s * 1000000000 + n) - T * 1000000000)
+    <= 1000000000 * (H prec ^ ops prec emax t1 - 1) * Rabs T + 1
+       + G * (H prec ^ (ops prec emax t2 + ops prec emax t3) - 1) + Rabs (G - 1000000000).
+Proof.
+  intros lib ac U dT ksec knano v s n HU Hok t1 frac t2 t3 T G S1 Su2 Su3 Snz Pk Pn.
+  exact (to_duration_accuracy prec emax Hprec Hmax lib ac U dT ksec knano v s n HU Hok S1 Su2 Su3 Snz Pk Pn).
+Qed.
+
+(* Duration -> Time: X = (secs k_second + nanos k_nanosecond) / f is the exact stored value; the result is within
+   (two roundings more than the longer of the two conversions) relative of it, and finite *)
+Theorem c14_from_duration_accuracy :
+  (64 < emax)%Z ->
+  forall lib ac (U : list fl) dT (ksec knano : fl) secs nanos,
+  Forall (fun u => is_nan u = false) U ->
+  (0 <= secs < 2 ^ 64)%Z -> (0 <= nanos < 2 ^ 32)%Z ->
+  let ta := to_base_tree prec emax Hprec Hmax lib U dT ksec (of_Z prec emax Hprec Hmax secs) in
+  let tn := to_base_tree prec emax Hprec Hmax lib U dT knano (of_Z prec emax Hprec Hmax nanos) in
+  let X := (IZR secs * B2R ksec + IZR nanos * B2R knano) / factor_R prec emax lib U dT in
+  let r := duration_to_time prec emax Hprec Hmax lib ac U dT ksec knano secs nanos in
+  Safe prec emax Hprec Hmax (to_base_tree prec emax Hprec Hmax lib U dT ksec one) ->
+  Safe prec emax Hprec Hmax (to_base_tree prec emax Hprec Hmax lib U dT knano one) ->
+  (secs <> 0%Z -> Safe prec emax Hprec Hmax ta) -> (nanos <> 0%Z -> Safe prec emax Hprec Hmax tn) ->
+  (X <> 0 -> normal prec emax (B2R (evalF prec emax Hprec Hmax ta) + B2R (evalF prec emax Hprec Hmax tn))) ->
+  0 < B2R ksec -> 0 < B2R knano -> 0 < factor_R prec emax lib U dT ->
+  is_finite r = true /\
+  Rabs (B2R r - X) <= (H prec ^ (S (S (Nat.max (ops prec emax ta) (ops prec emax tn)))) - 1) * Rabs X.
+Proof.
+  intros He lib ac U dT ksec knano secs nanos HU Hs Hn ta tn X r Sus Sun Ss Sn Nrm Pk Pn Pf.
+  exact (from_duration_accuracy prec emax Hprec Hmax He lib ac U dT ksec knano secs nanos HU Hs Hn Sus Sun Ss Sn Nrm Pk Pn Pf).
+Qed.
+
+(* the pieces are exact: to_u64/to_u32 truncate the real value; `% 1` leaves exactly the fractional part *)
+Theorem c14_trunc_and_fract_exact :
+  forall x : fl, is_finite x = true ->
+    ftrunc_Z prec emax x = Some (Ztrunc (B2R x))
+    /\ B2R (frem prec emax Hprec Hmax x one) = B2R x - IZR (Ztrunc (B2R x)).
+Proof.
+  intros x Fx. split; [exact (ftrunc_Z_Ztrunc prec emax x Fx)|].
+  exact (proj2 (frem_one prec emax Hprec Hmax x Fx)).
+Qed.
+End Acc.
+
+(* non-vacuity (binary64, hour base): 7.25 s stored in hours converts to Ok, and every premise of the
+   accuracy theorem is met; 9 + (9 + 9) roundings *)
+Definition hour_U := map (eval_f 53 1024 p64 m64) [ELit 1 0; ELit 1 0; ELit 36 2; ELit 1 0; ELit 1 0; ELit 1 0; ELit 1 0].
+Definition dTime := [0; 0; 1; 0; 0; 0; 0]%Z.
+Definition k_sec := eval_f 53 1024 p64 m64 (ELit 1 0).
+Definition k_nano := eval_f 53 1024 p64 m64 (ELit 1 (-9)).
+Definition stored_725 := q_new (StF 53 1024 p64 m64 LibStd) hour_U dTime k_sec (B754_zero true) (of_lit 53 1024 p64 m64 725 (-2)).
+Example c14_accuracy_premises_64 :
+  let t1 := from_base_tree 53 1024 p64 m64 LibStd hour_U dTime k_sec stored_725 in
+  let frac := frem 53 1024 p64 m64 (evalF 53 1024 p64 m64 t1) (fone 53 1024 p64 m64) in
+  let t2 := to_base_tree 53 1024 p64 m64 LibStd hour_U dTime k_sec frac in
+  let t3 := from_base_tree 53 1024 p64 m64 LibStd hour_U dTime k_nano (evalF 53 1024 p64 m64 t2) in
+  (exists n, time_to_duration 53 1024 p64 m64 LibStd true hour_U dTime k_sec k_nano stored_725 = DurOk 7 n
+             /\ (249999999 <= n <= 250000000)%Z)
+  /\ Safe 53 1024 p64 m64 t1
+  /\ Safe 53 1024 p64 m64 (to_base_tree 53 1024 p64 m64 LibStd hour_U dTime k_sec (fone 53 1024 p64 m64))
+  /\ Safe 53 1024 p64 m64 (from_base_tree 53 1024 p64 m64 LibStd hour_U dTime k_nano (fone 53 1024 p64 m64))
+  /\ Safe 53 1024 p64 m64 t2 /\ Safe 53 1024 p64 m64 t3
+  /\ is_finite_strict frac = true
+  /\ (ops 53 1024 t1 + (ops 53 1024 t2 + ops 53 1024 t3) <= 60)%nat.
+Proof.
+  cbv zeta.
+  split; [eexists; split; [vm_compute; reflexivity|vm_compute; split; discriminate]|].
+  split; [apply safe64_sound; vm_compute; reflexivity|].
+  split; [apply safe64_sound; vm_compute; reflexivity|].
+  split; [apply safe64_sound; vm_compute; reflexivity|].
+  split; [apply safe64_sound; vm_compute; reflexivity|].
+  split; [apply safe64_sound; vm_compute; reflexivity|].
+  split; [vm_compute; reflexivity|].
+  vm_compute. lia.
+Qed.
